@@ -76,8 +76,9 @@ where
                     break;
                 },
                 Err(err) => {
+                    // A request that cannot be applied (e.g. closing an active blob that does not exist) or an I/O
+                    // error must not stop background maintenance: log it and keep serving further requests
                     error!("ObserverWorker unexpected error: {:?}", err);
-                    panic!("ObserverWorker unexpected error: {:?}", err);
                 }
             }
         }
